@@ -302,6 +302,34 @@ let decode_mode path =
    with End_of_file -> ());
   close_in ic
 
+(* -cls: lines of hex raw class text; prints the model's reading under both settings of esc_is_char:
+   "rawhex|<q=false>|<q=true>" with each reading "chars;ranges;classes(hex,comma);ic;inv" or "none" *)
+let cls_mode path =
+  let ic = open_in path in
+  let rec runes (b : n list) = match b with [] -> [] | _ ->
+    let (r, w) = decode b in
+    let w = max 1 (int_of_nat w) in
+    let rec drop k l = if k = 0 then l else match l with [] -> [] | _ :: t -> drop (k - 1) t in
+    r :: runes (drop w b) in
+  let rec enc_rune r =    (* class names are ASCII identifiers *)
+    Printf.sprintf "%02x" (int_of_z r) in
+  let show q raw =
+    match parse_class q raw with
+    | None -> "none"
+    | Some k ->
+        let ints l = String.concat " " (List.map (fun z -> string_of_int (int_of_z z)) l) in
+        Printf.sprintf "%s;%s;%s;%d;%d" (ints k.k_chars) (ints k.k_ranges)
+          (String.concat "," (List.map (fun nm -> String.concat "" (List.map enc_rune nm)) k.k_classes))
+          (if k.k_ic then 1 else 0) (if k.k_inv then 1 else 0) in
+  (try
+     while true do
+       let line = input_line ic in
+       let raw = runes (bytes_of_str (unhex ("x" ^ line))) in
+       Printf.printf "%s|%s|%s\n" line (show false raw) (show true raw)
+     done
+   with End_of_file -> ());
+  close_in ic
+
 (* ---------- front-end AST (Gen model) ---------- *)
 let rec aexpr_of = function
   | L [A "lit"; v; ic] -> ALit (hexb v, bool_a ic)
@@ -394,17 +422,19 @@ let bl_mode path =
   close_in ic
 
 let () =
-  let tables = ref "" and cases = ref "" and fuel = ref 4000 and dec = ref "" and bl = ref "" and prep = ref "" in
+  let tables = ref "" and cases = ref "" and fuel = ref 4000 and dec = ref "" and bl = ref "" and prep = ref "" and cls = ref "" in
   Arg.parse [ ("-tables", Arg.Set_string tables, "unicode tables file");
               ("-cases", Arg.Set_string cases, "case file");
               ("-pq", Arg.String set_pq, "analysis quirks, 2 bits: nullable_inner pred_first (default 01 = current tree: nullable_inner repaired by fix 46465c9)");
               ("-prep", Arg.Set_string prep, "file of grammars: PrepareGrammar model over all iteration orders + LRSpec");
+              ("-cls", Arg.Set_string cls, "file of hex class texts: the model of ast.CharClassMatcher.parse under both escape settings");
               ("-bl", Arg.Set_string bl, "file of classes: print Basic-Latin tables of the model");
               ("-decode", Arg.Set_string dec, "file of hex strings: print decode results");
               ("-quirks", Arg.String set_quirks, "4 bits: lit_eof stale_ctx recover_scope memo_nocharge (default 1111 = faithful)");
               ("-ref", Arg.Set ref_mode, "evaluate the specification (Ref) instead of the implementation model");
               ("-fuel", Arg.Set_int fuel, "fuel") ] (fun _ -> ()) "driver";
   if !dec <> "" then (decode_mode !dec; exit 0);
+  if !cls <> "" then (cls_mode !cls; exit 0);
   if !tables <> "" then load_tables !tables;
   if !bl <> "" then (bl_mode !bl; exit 0);
   if !prep <> "" then (Random.init 7; prep_mode !prep; exit 0);
